@@ -167,6 +167,19 @@ func renderNode(w io.Writer, node *html.Node, indent int) error {
 	return renderNodeWithContext(ctx, w, node, indent)
 }
 
+// keepLeadingNewline returns the extra line break to write after the start tag of pre,
+// textarea and listing when their content begins with one: an HTML parser drops a single
+// newline right after these start tags, so the first newline of the content has to be doubled.
+func keepLeadingNewline(tag, content string) string {
+	switch tag {
+	case "pre", "textarea", "listing":
+		if strings.HasPrefix(content, "\n") {
+			return "\n"
+		}
+	}
+	return ""
+}
+
 // renderPreformatted writes the children of a preformatted element inline, at any depth:
 // whitespace inside <pre> is content, so whitespace-only text is kept and no indentation or
 // line break of our own is added between or inside the elements there.
@@ -260,7 +273,7 @@ func renderNodeWithContext(ctx VueContext, w io.Writer, node *html.Node, indent 
 			if tagName == "template" {
 				_, _ = w.Write([]byte(content))
 			} else {
-				_, _ = w.Write([]byte(spaces + "<" + tagName + renderAttrs(node.Attr) + ">"))
+				_, _ = w.Write([]byte(spaces + "<" + tagName + renderAttrs(node.Attr) + ">" + keepLeadingNewline(tagName, content)))
 				_, _ = w.Write([]byte(content))
 				_, _ = w.Write([]byte("</" + tagName + ">\n"))
 			}
@@ -307,7 +320,7 @@ func renderNodeWithContext(ctx VueContext, w io.Writer, node *html.Node, indent 
 		if childCount == 0 {
 			_, _ = w.Write([]byte(spaces + "<" + tagName + renderAttrs(node.Attr) + "></" + tagName + ">\n"))
 		} else if childCount == 1 && firstChild.Type == html.TextNode {
-			_, _ = w.Write([]byte(spaces + "<" + tagName + renderAttrs(node.Attr) + ">"))
+			_, _ = w.Write([]byte(spaces + "<" + tagName + renderAttrs(node.Attr) + ">" + keepLeadingNewline(tagName, firstChild.Data)))
 			// Skip HTML escaping inside script and style tags
 			if tagName == "script" || tagName == "style" || isRawTextBody(tagName, firstChild.Data) {
 				_, _ = w.Write([]byte(firstChild.Data))
@@ -319,7 +332,11 @@ func renderNodeWithContext(ctx VueContext, w io.Writer, node *html.Node, indent 
 			_, _ = w.Write([]byte("</" + tagName + ">\n"))
 		} else if tagName == "pre" {
 			// preformatted: no indentation or line breaks of our own inside
-			_, _ = w.Write([]byte(spaces + "<" + tagName + renderAttrs(node.Attr) + ">"))
+			lead := ""
+			if firstChild.Type == html.TextNode {
+				lead = keepLeadingNewline(tagName, firstChild.Data)
+			}
+			_, _ = w.Write([]byte(spaces + "<" + tagName + renderAttrs(node.Attr) + ">" + lead))
 			renderPreformatted(w, node)
 			_, _ = w.Write([]byte("</" + tagName + ">\n"))
 		} else {
